@@ -297,6 +297,9 @@ func (cs *ContractSet) addClause(cur **Contract, pkgPath, pos, text string) erro
 		if lp < 0 || !strings.HasSuffix(name, ")") {
 			return fmt.Errorf("%s: define needs name(params)", pos)
 		}
+		if _, dup := cs.ByTarget["define "+pkgPath+"."+strings.TrimSpace(name[:lp])]; dup {
+			return fmt.Errorf("%s: duplicate define %s", pos, name[:lp])
+		}
 		c := &Contract{Kind: "define", Pkg: pkgPath, LoopInv: map[int][]*Clause{}, LoopDec: map[int]*Clause{}, LoopMod: map[int][]string{}, Flags: map[string]string{}, Pos: pos}
 		for _, pn := range strings.Split(name[lp+1:len(name)-1], ",") {
 			if pn = strings.TrimSpace(pn); pn != "" {
@@ -311,6 +314,9 @@ func (cs *ContractSet) addClause(cur **Contract, pkgPath, pos, text string) erro
 		// axiom name  followed by  is EXPR : assumed at the entry of every function of the package
 		c := &Contract{Kind: "axiom", Pkg: pkgPath, LoopInv: map[int][]*Clause{}, LoopDec: map[int]*Clause{}, LoopMod: map[int][]string{}, Flags: map[string]string{}, Pos: pos, Trusted: true}
 		c.Target = "axiom " + pkgPath + "." + strings.TrimSpace(rest)
+		if _, dup := cs.ByTarget[c.Target]; dup {
+			return fmt.Errorf("%s: duplicate axiom %s", pos, c.Target)
+		}
 		cs.ByTarget[c.Target] = c
 		cs.Order = append(cs.Order, c.Target)
 		*cur = c
